@@ -79,7 +79,7 @@ def run_check(mod, tier, seed):
             cov["axioms"] = per
             if not aok:
                 broken.append(("axiom-audit", "; ".join(problems[:5])))
-            missing = [t for t in thms if not any(k.split(".")[-1] == t for k in per)]
+            missing = [t for t in thms if not any(k == t or k.endswith("." + t) for k in per)]
             if missing:
                 broken.append(("axiom-audit", "theorems not audited: " + ", ".join(missing)))
             cov["discharged"] = cov["obligations"] if aok and not missing else 0
